@@ -22,6 +22,7 @@ func main() {
 		"C18":       run,
 		"c18worker": func([]string) { subproc.Serve(c18.Handle) },
 		"c18race":   racePass,
+		"C05T":      c05threads,
 		"c18points": func(a []string) { // debugging aid: print the scheduling points of one execution
 			var c c18.Case
 			json.Unmarshal([]byte(a[0]), &c)
@@ -199,7 +200,7 @@ func run(args []string) {
 	racePassResult := runRacePass()
 	cov := map[string]any{
 		"race_detector_pass": racePassResult,
-		"states": total.Execs, "transitions": total.Points, "traces_validated_against_impl": total.Execs,
+		"states":             total.Execs, "transitions": total.Points, "traces_validated_against_impl": total.Execs,
 		"samples": samples, "exhaustive": exhaustive && !harnessErr, "scenarios": perScenario, "distinct_outcomes": len(total.Outcomes),
 		"rule": "states = complete executions (schedules) explored, transitions = scheduling points executed; for every scenario all schedules with at most the completed number of preemptions (deviation-bounded DFS: replay a choice prefix, then always continue the running thread) at the lock and atomic operations of the rewritten packages",
 	}
@@ -323,4 +324,138 @@ func doReplay(path string) int {
 	}
 	fmt.Println("not reproduced", st.Err)
 	return 0
+}
+
+// ---- C05T: the logical clock of a repository handle under threads --------------------------------
+//
+// Run by ./check C05 from a second build of this binary (the scheduler needs the sync overlay). It
+// explores the clock scenarios, prints one JSON document on stdout and leaves reporting, known
+// findings and the evidence file to the C05 harness.
+
+func clockScenarios(tier string) []c18.Scenario {
+	T := func(calls ...c18.Call) []c18.Call { return calls }
+	scs := []c18.Scenario{
+		{Name: "clock: increment || increment", Clock: true, IO: true, Threads: [][]c18.Call{T(c18.CClockInc), T(c18.CClockInc)}},
+		{Name: "clock: increment || witness", Clock: true, IO: true, Threads: [][]c18.Call{T(c18.CClockInc), T(c18.CClockWitness)}},
+		{Name: "clock: increment+increment || witness", Clock: true, IO: true, Threads: [][]c18.Call{T(c18.CClockInc, c18.CClockInc), T(c18.CClockWitness)}},
+	}
+	if tier == "thorough" {
+		scs = append(scs,
+			c18.Scenario{Name: "clock: increment || increment || witness", Clock: true, IO: true, Threads: [][]c18.Call{T(c18.CClockInc), T(c18.CClockInc), T(c18.CClockWitness)}},
+			c18.Scenario{Name: "clock: increment+witness || witness+increment", Clock: true, IO: true, Threads: [][]c18.Call{T(c18.CClockInc, c18.CClockWitness), T(c18.CClockWitness, c18.CClockInc)}})
+	}
+	return scs
+}
+
+type c05tFound struct {
+	Oracle   string       `json:"oracle"`
+	Sig      string       `json:"sig"`
+	Detail   string       `json:"detail"`
+	Count    int          `json:"count"`
+	Scenario c18.Scenario `json:"scenario"`
+	Choices  []int        `json:"choices"`
+}
+
+func c05threads(args []string) {
+	fs := flag.NewFlagSet("C05T", flag.ExitOnError)
+	replay := fs.String("replay", "", "replay file")
+	fs.Parse(args)
+	if *replay != "" {
+		os.Exit(doReplay(*replay))
+	}
+	tier := evidence.Tier()
+	budget := 60 * time.Second
+	maxBound := 3
+	if tier == "thorough" {
+		budget, maxBound = 10*time.Minute, 4
+	}
+	deadline := time.Now().Add(budget)
+	out := map[string]any{}
+	var found []c05tFound
+	var per []map[string]any
+	execs, points := 0, 0
+	exhaustive, harnessErr := true, false
+	scs := clockScenarios(tier)
+	for i, sc := range scs {
+		scDeadline := time.Now().Add(time.Until(deadline) / time.Duration(len(scs)-i))
+		st := c18newStats()
+		completed := 0
+		prev := map[string]c18.Found{}
+		for b := 1; b <= maxBound; b++ {
+			cur := c18newStats()
+			rootCase, _ := json.Marshal(c18.Case{Scenario: sc, Bound: b, RootOnly: true})
+			rr, err := subproc.Run([]string{"c18worker"}, []string{string(rootCase)}, 1)
+			if err != nil || rr[0].Crashed {
+				fmt.Fprintln(os.Stderr, "harness error: root execution of", sc.Name, err, rr[0].Stderr)
+				harnessErr = true
+				break
+			}
+			var root c18.Stats
+			json.Unmarshal(rr[0].Out, &root)
+			if root.Err != "" {
+				fmt.Fprintln(os.Stderr, "harness error:", sc.Name, root.Err)
+				harnessErr = true
+				break
+			}
+			cur.Merge(&root)
+			var cases []string
+			for _, br := range root.Branches {
+				cj, _ := json.Marshal(c18.Case{Scenario: sc, Prefix: br.Prefix, Used: br.Used, Bound: b, Deadline: scDeadline.Unix()})
+				cases = append(cases, string(cj))
+			}
+			results, err := subproc.Run([]string{"c18worker"}, cases, 0)
+			if err != nil {
+				fmt.Fprintln(os.Stderr, "harness error:", err)
+				harnessErr = true
+			}
+			for _, r := range results {
+				if r.Crashed {
+					fmt.Fprintln(os.Stderr, "harness error: worker died:", r.Stderr)
+					harnessErr = true
+					continue
+				}
+				var s c18.Stats
+				json.Unmarshal(r.Out, &s)
+				if s.Err != "" {
+					fmt.Fprintln(os.Stderr, "harness error:", sc.Name, s.Err)
+					harnessErr = true
+				}
+				cur.Merge(&s)
+			}
+			st = cur
+			if cur.Truncated {
+				exhaustive = false
+				break
+			}
+			completed = b
+			for k, f := range prev {
+				cf := cur.Found[k]
+				f.Count = cf.Count
+				if f.Count == 0 {
+					f.Count = 1
+				}
+				cur.Found[k] = f
+			}
+			prev = cur.Found
+		}
+		fmt.Fprintf(os.Stderr, "C05 threads %-45s bound<=%d: executions=%d points=%d distinct outcomes=%d problems=%d\n", sc.Name, completed, st.Execs, st.Points, len(st.Outcomes), len(st.Found))
+		per = append(per, map[string]any{"scenario": sc.Name, "threads": sc.Threads, "completed_preemption_bound": completed, "executions": st.Execs,
+			"scheduling_points": st.Points, "distinct_outcomes": len(st.Outcomes), "outcomes": st.Outcomes})
+		execs += st.Execs
+		points += st.Points
+		keys := make([]string, 0, len(st.Found))
+		for k := range st.Found {
+			keys = append(keys, k)
+		}
+		sort.Strings(keys)
+		for _, k := range keys {
+			f := st.Found[k]
+			found = append(found, c05tFound{Oracle: f.Oracle, Sig: f.Sig, Detail: f.Detail, Count: f.Count, Scenario: sc, Choices: f.Choices})
+		}
+	}
+	out["executions"], out["scheduling_points"], out["scenarios"] = execs, points, per
+	out["exhaustive"], out["harness_error"], out["found"] = exhaustive && !harnessErr, harnessErr, found
+	out["rule"] = "all schedules of the listed threads with at most the completed number of preemptions; scheduling points are the lock operations of packages repository and util/lamport and the file operations of the local storage (clock files); the repository handle is freshly opened without clock loaders, so the first use of the clock happens under the threads"
+	b, _ := json.Marshal(out)
+	fmt.Println(string(b))
 }
